@@ -42,9 +42,6 @@ static int mfp_test(HIO_HANDLE *f, char *t, const int start)
 	uint8 buf[384];
 	int i, len, lps, lsz;
 
-	if (HIO_HANDLE_TYPE(f) != HIO_HANDLE_TYPE_FILE)
-		return -1;
-
 	if (hio_read(buf, 1, 384, f) < 384)
 		return -1;
 
